@@ -53,6 +53,13 @@ def run(res, a):
             if kind in KINDS:
                 res.violation("impl:" + kind, "corpus/C07/%s reproduces: %s" % (name, text), witness=open(os.path.join(cdir, name)).read(), replay_name="C07_corpus_%s" % name)
                 break
+    # thread metadata under OS refusals (function-level: mi_thread_data_zalloc / _free / _collect with the shim ledger)
+    import props.oslib as oslib
+    okh, txth, cmdh, exeh = oslib.build_harness("t_osfree", "C07")
+    if not okh:
+        res.violation("harness-build", "harness/t_osfree.c no longer compiles against the current tree: " + txth[-1000:])
+    else:
+        oslib.td_faults(res, exeh)
     big = a.tier == "thorough"
     import props.C13 as c13
     idx = c13.option_index()
